@@ -61,6 +61,7 @@ pub const ADV: &[PoolName] = &[
     pn("xsi:type", "prefixed"),
     attr_only("xmlns", "xmlns"),
     attr_only("xmlns:ns", "xmlns"),
+    attr_only("xml:lang", "prefixed"),
     pn("Total", "concat"),
     pn("Price", "concat"),
     pn("TotalPrice", "concat"),
